@@ -1485,6 +1485,8 @@ def run(ctx):
         try:
             extra_oracles.constant_roundtrip(ctx)
             extra_oracles.univariate_constant_history(ctx)
+            from .. import extra_oracles2
+            extra_oracles2.serial_independent_copies(ctx)
         except Exception as ex:
             ctx.obligation('oracle:extra:raised', False, 'correspondence', repr(ex))
             ctx.violation('oracle:extra:raised:' + type(ex).__name__, 'constant round-trip oracle raised ' + repr(ex), {'repro': '# see tools/vf/extra_oracles.py'})
